@@ -358,10 +358,16 @@ def _meta(case, ctx):
                 got.append(event)
         p = EventProducer()
         p.add_listener(et, L())
-        if case["timed"]:
-            p.fire_timed(ts, et, payload, case["check"])
-        else:
-            p.fire(et, payload, case["check"])
+        try:
+            if case["timed"]:
+                p.fire_timed(ts, et, payload, case["check"])
+            else:
+                p.fire(et, payload, case["check"])
+        except Exception as e:
+            # the event itself could be created with these arguments: firing them through the producer must work too
+            ctx.viol(f"fire-refuses-what-the-event-class-accepts:{type(e).__name__}", {"decl": decl, "shape": shape, "check": case["check"],
+                                                                                    "timed": case["timed"], "exc": repr(e)[:200]})
+            return
         if len(got) != 1 or got[0].content is not payload or (case["timed"] and got[0].timestamp is not ts):
             ctx.viol("fired-metadata-event-not-delivered-intact", {"decl": decl, "n": len(got)})
     ctx.seen("meta_shapes", f"{shape}:{'check' if case['check'] else 'nocheck'}:{'created' if created is not None else 'refused'}")
